@@ -438,12 +438,31 @@ func genSPZ(c choice.Chooser) (*file, error) {
 	rb(n * 3 * shDim) // sh
 	level := []int{gzip.DefaultCompression, gzip.NoCompression, gzip.BestSpeed, gzip.BestCompression}[c.Intn("spz:gzlevel", 4)]
 	var out bytes.Buffer
-	zw, _ := gzip.NewWriterLevel(&out, level)
-	zw.Write(raw.Bytes())
-	zw.Close()
+	// a gzip file is a series of members (RFC 1952): now and then the
+	// payload is split over two or three
+	members := 1
+	if c.Intn("spz:members", 5) == 4 {
+		members = 2 + c.Intn("spz:nmembers", 2)
+	}
+	payload := raw.Bytes()
+	var memberEnds []int
+	for m := 0; m < members; m++ {
+		lo, hi := len(payload)*m/members, len(payload)*(m+1)/members
+		zw, _ := gzip.NewWriterLevel(&out, level)
+		zw.Write(payload[lo:hi])
+		zw.Close()
+		memberEnds = append(memberEnds, out.Len())
+	}
 	b := out.Bytes()
-	return &file{Format: FSPZ, Desc: fmt.Sprintf("spz v%d sh%d n=%d gz=%d raw=%d", version, shDegree, n, level, raw.Len()), Bytes: b,
-		regions: []region{{"gzip-header", 10}, {"gzip-body", len(b) - 8}, {"gzip-trailer", len(b)}}}, nil
+	regs := []region{{"gzip-header", 10}}
+	for i, e := range memberEnds {
+		if i < len(memberEnds)-1 {
+			regs = append(regs, region{"gzip-body", e - 1}, region{"gzip-member-boundary", e + 1})
+		}
+	}
+	regs = append(regs, region{"gzip-body", len(b) - 8}, region{"gzip-trailer", len(b)})
+	return &file{Format: FSPZ, Desc: fmt.Sprintf("spz v%d sh%d n=%d gz=%d raw=%d members=%d", version, shDegree, n, level, raw.Len(), members), Bytes: b,
+		regions: regs}, nil
 }
 
 // ------------------------------------------------------------ PTS encoder
